@@ -127,4 +127,8 @@ REQUEST_VARIANTS = [
     ("GET", [("Range", "bytes=5-4")]),
     ("GET", [("Range", "lines=1-2")]),
     ("HEAD", [("Range", "bytes=0-1,5-6")]),
+    ("GET", [("Range", "bytes=0-4"), ("If-Range", '"0123456789abcdef"')]),
+    ("GET", [("Range", "bytes=5-4"), ("If-Range", "Wed, 21 Oct 2015 07:28:00 GMT")]),
+    ("GET", [("Range", "bytes=0-1,5-6"), ("If-Range", "garbage")]),
+    ("GET", [("If-Range", '"0123456789abcdef"')]),
 ]
